@@ -157,3 +157,10 @@ func min(a, b int) int {
 	}
 	return b
 }
+
+// shuffle: Fisher-Yates with the harness generator
+func (r *rng) shuffle(n int, swap func(i, j int)) {
+	for i := n - 1; i > 0; i-- {
+		swap(i, r.intn(i+1))
+	}
+}
